@@ -297,6 +297,11 @@ func (l listEnviron) compare(a, b string) int {
 }
 
 func (l listEnviron) Get(name string) Variable {
+	if strings.Contains(name, "=") {
+		// Not a name any pair can have; the search below relies on that,
+		// as it tells names apart by the first equal sign.
+		return Variable{}
+	}
 	eqpos := len(name)
 	endpos := len(name) + 1
 	i, ok := slices.BinarySearchFunc(l.pairs, name, func(pair, name string) int {
